@@ -223,6 +223,19 @@ def justifiedB (rows : List (Nat × LS)) (tokens : List Mutex) (a : Access) : Bo
   (realLocks tokens a).isEmpty ||
     ((rows.any fun r => r.1 == a.site) && (rows.all fun r => r.1 != a.site || subB (realLocks tokens a) r.2))
 
+/-- may a skeleton with this name inherit locks from its callers?  Only a function literal (`outer$n`: entered where it
+    is written / where the parameter it is passed for is called) or a function whose own name (last segment) is not
+    exported; an exported function or method can be entered from other packages with nothing held. -/
+def inheritOk (name : String) : Bool :=
+  name.contains '$' ||
+    (match (name.splitOn ".").getLast? with
+     | some seg => (match seg.toList.head? with | some c => !c.isUpper | none => false)
+     | none => false)
+
+/-- every skeleton with a non-empty entry lockset may have one -/
+def entryRootsOkB (names : List String) (entry : Trie LS) : Bool :=
+  (names.zipIdx).all fun p => (getLS entry p.2).isEmpty || inheritOk p.1
+
 /-- the analysis rows, indexed by site in a trie (an untrusted hint, checked against `allRows` by `rowsIndexedB`) -/
 def rowsIndexedB (rows : List (Nat × LS)) (t : Trie LS) : Bool := rows.all fun r => decide (t.get r.1 = some r.2)
 
